@@ -21,7 +21,7 @@ func init() {
 			"the response header rejects lengths outside (4, MaxResponseSize] and the receive loop sizes its buffer from that checked length (C10.cap); decode/versionedDecode succeed only if the whole buffer was consumed, length and CRC fields report a mismatch as an error (C10.consumed); decoder loops bounded by remaining() > 0 consume input or exit on every iteration (C10.loop-progress). " +
 			"no decoding step of the response path whose error is non-nil is answered with `return nil` — after a failed getter the cursor is at the end of the input, so such a swallowed error would let a truncated response through the final length test (C10.err-propagated; the ErrInsufficientData comparison of the truncated-tail handling is the one exempt idiom). " +
 			"NOT covered: memory use of decompression, hangs inside third-party codecs, CRC collision strength, semantic validity of decoded values.",
-		Rules: []func(*Ctx){c10Prim, c10Alloc, c10Cap, c10Consumed, c10LoopProgress, c10ErrPropagated, c10ErrLost, c09PoolOnce, c10RecordsPerBatch, c04OwnedOutput, c09PoolOnceDeferredClosure, c10MessageSetConsumesOrFlags, c09RecordsFresh, c10DecompressSizeFromPayload},
+		Rules: []func(*Ctx){c10Prim, c10Alloc, c10Cap, c10Consumed, c10LoopProgress, c10ErrPropagated, c10ErrLost, c09PoolOnce, c10RecordsPerBatch, c04OwnedOutput, c09PoolOnceDeferredClosure, c10MessageSetConsumesOrFlags, c09RecordsFresh, c10DecompressSizeFromPayload, c10NoNilIntoPool},
 	})
 }
 
